@@ -255,6 +255,16 @@ func (g *Gen) intExpr(env []binding, d int) r.Val {
 			f := g.funs[g.pick("fsel", len(g.funs))]
 			call := []r.Val{sym(f.name)}
 			for i := 0; i < f.arity; i++ {
+				if i == 0 && g.pick("composed", 3) == 0 {
+					// (f (f x)): the first reference to a function may hold another call to the same function in its
+					// arguments (both are compiled before the function is defined)
+					inner := []r.Val{sym(f.name)}
+					for k := 0; k < f.arity; k++ {
+						inner = append(inner, g.Expr(TInt, env, d+2))
+					}
+					call = append(call, r.L(inner...))
+					continue
+				}
 				call = append(call, g.Expr(TInt, env, d+1))
 			}
 			return r.L(call...)
